@@ -48,6 +48,12 @@ AREAS = {
                 'stalls of 1-12 ms at random points, consumer loss after k messages in a quarter of the cases, sorted in a quarter, ECU filter in a third; '
                 'streams of 1-12 (thorough 1-24) messages from the lifecycle generator; each case also runs the same stages with unbounded channels',
     },
+    'mrg': {
+        'shrink_sep': ';', 'head_sep': ' | ',
+        'rule': 'families of 0-6 sources with 0-12 (thorough 0-40) messages each (a fifth of the sources empty), reception times all equal / '
+                'non-decreasing with ties / increasing / unordered, start index 0-1999, through SortingMultiReaderIterator::new, '
+                'SequentialMultiIterator::new and both new_or_single_it variants; non-trivial = tagged (ties, empty source, unordered source, single, multi)',
+    },
     'dp': {
         'shrink_sep': ';', 'head_sep': None,
         'rule': 'byte streams built from items: well-formed messages (all 32 combinations of the optional header parts, both byte orders, '
@@ -99,6 +105,11 @@ PROPS = {
         'id': 'C13', 'area': 'pipe',
         'theorems': ['Props.C13_safety', 'Props.C13_complete'],
         'n_quick': 600, 'n_thorough': 20000,
+    },
+    'C09': {
+        'id': 'C09', 'area': 'mrg',
+        'theorems': ['Props.C09_perm', 'Props.C09_source_order', 'Props.C09_sorted', 'Props.C09_chain', 'Props.C09_index'],
+        'n_quick': 5000, 'n_thorough': 200000,
     },
     'C05': {
         'id': 'C05', 'area': 'lc',
